@@ -194,6 +194,20 @@ func checkC09(c *core.Ctx) []core.Floor {
 		}
 	}
 	add("substitutions", sub)
+	// one long-lived process that keeps seeing names it has not seen before
+	// (tens of thousands of distinct words): whatever the front end remembers
+	// between statements must not wear out
+	{
+		var lp []string
+		nlp := 30000
+		if !quick {
+			nlp = 120000
+		}
+		for i := 0; i < nlp; i++ {
+			lp = append(lp, fmt.Sprintf("select col_%d, c%dx from tbl_%d where col_%d = %d order by c%dx", i, i, i, i, i, i))
+		}
+		batches = append(batches, c09Batch{family: "long_process", inputs: lp})
+	}
 	// every sequence of up to 4 clauses (repetitions and wrong orders included)
 	// after each statement head
 	clauses := []string{"FROM t", "WHERE a = 1", "GROUP BY a", "ORDER BY a DESC", "LIMIT 1", "OFFSET 2", "JOIN u ON a = b", "LEFT JOIN u x ON x.a = t.b", "AS z", ", b", "AND c = 2", "OR d < 3", "VALUES (1, 'a')", "SET a = 1", "(a, b)", ";", "ORDER BY 1", "ORDER BY 2 DESC", "GROUP BY 1", "ORDER BY count(*)", "HAVING a = 1", "WHERE 1"}
@@ -344,7 +358,7 @@ func checkC09(c *core.Ctx) []core.Floor {
 	c.Sample(6, map[string]interface{}{"family": "prefixes", "example": pref[len(pref)/2]})
 	c.Sample(6, map[string]interface{}{"family": "mutations", "example": mut[len(mut)/2]})
 	fl := []core.Floor{{Key: "inputs", Min: 50000}}
-	for _, f := range []string{"token_sequences", "valid_statements", "prefixes", "mutations", "substitutions", "clause_sequences", "quotes", "numerics", "buffer_boundary", "unicode_case", "encoding_edges", "random_bytes", "deep"} {
+	for _, f := range []string{"token_sequences", "valid_statements", "prefixes", "mutations", "substitutions", "long_process", "clause_sequences", "quotes", "numerics", "buffer_boundary", "unicode_case", "encoding_edges", "random_bytes", "deep"} {
 		fl = append(fl, core.Floor{Key: "family_" + f, Min: 1})
 	}
 	fl = append(fl, core.Floor{Key: "outcome_statement", Min: 1000}, core.Floor{Key: "outcome_error", Min: 1000})
